@@ -338,3 +338,56 @@ package actions
 //@   ensures wakes: [C10] err == nil ==> wake_on_commit(a.results.ID)
 //@   ensures no_swallowed_failure: [C09] dbfailed() && !old(dbfailed()) ==> err != nil
 //@   modifies T:subscriptions:*, S:dbfailed, S:wake_on_commit, F:actions.CreateSubscription:*, F:actions.createSubscriptionResults:*, F:actions.actionTimer:*
+
+// ---- C13: snapshots. A snapshot records the publish-time watermark W of the oldest outstanding delivery of the
+// subscription (or now if none) and the set A of topic messages published at or after W that are acknowledged on it.
+//@ func (*CreateSnapshot).Execute(a, ctx, tx) (err)
+//@   property C13
+//@   uses tables notifyspec
+//@   requires a != nil && tx != nil
+//@   ensures created: err == nil ==> a.results != nil && (forall n Id :: n == a.results.SnapshotID ==> !old(snapshots.exists(n)) && snapshots.exists(n) &&
+//@             snapshots.name(n) == a.params.Name && sub_named(a.results.SubscriptionID, a.params.SubscriptionName) &&
+//@             snapshots.topic_id(n) == subscriptions.topic_id(a.results.SubscriptionID))
+//@   ensures name_taken: [C12] (exists n Id :: old(snapshots.exists(n)) && old(snapshots.name(n)) == a.params.Name) ==> err != nil && (err == ErrExists || dbfailed())
+//@   ensures watermark: err == nil ==> exists now clock :: forall n Id, s Id :: n == a.results.SnapshotID && s == a.results.SubscriptionID ==>
+//@             (forall d Id :: old(outstanding(d, now)) && deliveries.subscription_id(d) == s ==> snapshots.acked_messages_before(n) <= deliveries.published_at(d)) &&
+//@             ((exists d Id :: old(outstanding(d, now)) && deliveries.subscription_id(d) == s && deliveries.published_at(d) == snapshots.acked_messages_before(n)) ||
+//@              ((forall d Id :: !(old(outstanding(d, now)) && deliveries.subscription_id(d) == s)) && snapshots.acked_messages_before(n) == now && (forall m Id :: !snap_acked(n, m))))
+//@   ensures acked_set: err == nil ==> (forall n Id, s Id, m Id :: n == a.results.SnapshotID && s == a.results.SubscriptionID ==>
+//@             (snap_acked(n, m) ==>
+//@                messages.exists(m) && messages.topic_id(m) == subscriptions.topic_id(s) && messages.published_at(m) >= snapshots.acked_messages_before(n) &&
+//@                (exists d Id :: deliveries.exists(d) && deliveries.message_id(d) == m && deliveries.subscription_id(d) == s && !deliveries.completed_at$null(d))))
+//@   ensures acked_set_complete: err == nil ==> exists now clock :: (forall n Id, s Id, d Id :: n == a.results.SnapshotID && s == a.results.SubscriptionID &&
+//@             deliveries.exists(d) && deliveries.subscription_id(d) == s && !deliveries.completed_at$null(d) && messages.exists(deliveries.message_id(d)) &&
+//@             messages.topic_id(deliveries.message_id(d)) == subscriptions.topic_id(s) && messages.published_at(deliveries.message_id(d)) >= snapshots.acked_messages_before(n) &&
+//@             (exists o Id :: old(outstanding(o, now)) && deliveries.subscription_id(o) == s) ==> snap_acked(n, deliveries.message_id(d)))
+//@   ensures nothing_else: forall n Id :: old(snapshots.exists(n)) ==> snapshots.exists(n) && snapshots.name(n) == old(snapshots.name(n)) &&
+//@             snapshots.acked_messages_before(n) == old(snapshots.acked_messages_before(n)) && snapshots.acked_message_ids(n) == old(snapshots.acked_message_ids(n))
+//@   ensures no_swallowed_failure: [C09] dbfailed() && !old(dbfailed()) ==> err != nil
+//@   modifies T:snapshots:*, S:dbfailed, S:wake_on_commit, F:actions.CreateSnapshot:*, F:actions.createSnapshotResults:*, F:actions.actionTimer:*
+
+// Seeking subscription S to snapshot (W, A) at instant now: retained deliveries of S published before W, or whose
+// message is in A, end up acknowledged; acknowledged deliveries of S published at or after W and not in A are
+// re-opened with fresh retention and are immediately deliverable; nothing else changes.
+//@ func (*SeekSubscriptionToSnapshot).Execute(a, ctx, tx) (err)
+//@   property C13
+//@   uses tables notifyspec
+//@   requires a != nil && tx != nil
+//@   ensures target: err == nil ==> a.params.SubscriptionID != nil && live_sub(deref(a.params.SubscriptionID)) && a.params.SnapshotID != nil && snapshots.exists(deref(a.params.SnapshotID)) &&
+//@             (old(a.params.SubscriptionID) != nil ==> deref(a.params.SubscriptionID) == old(deref(a.params.SubscriptionID))) &&
+//@             (old(a.params.SubscriptionName) != "" ==> subscriptions.name(deref(a.params.SubscriptionID)) == old(a.params.SubscriptionName)) &&
+//@             (old(a.params.SnapshotID) != nil ==> deref(a.params.SnapshotID) == old(deref(a.params.SnapshotID))) &&
+//@             (old(a.params.SnapshotName) != "" ==> snapshots.name(deref(a.params.SnapshotID)) == old(a.params.SnapshotName))
+//@   ensures seek: err == nil ==> exists now clock :: forall d Id ::
+//@             old(deliveries.exists(d)) && old(deliveries.subscription_id(d)) == deref(a.params.SubscriptionID) ==>
+//@               deliveries.exists(d) &&
+//@               ((old(deliveries.published_at(d)) < snapshots.acked_messages_before(deref(a.params.SnapshotID)) || snap_acked(deref(a.params.SnapshotID), old(deliveries.message_id(d)))) ==>
+//@                   (old(deliveries.completed_at$null(d)) && old(deliveries.expires_at(d)) >= now ==> !deliveries.completed_at$null(d)) &&
+//@                   (!(old(deliveries.completed_at$null(d)) && old(deliveries.expires_at(d)) >= now) ==> delivery_unchanged(d))) &&
+//@               (!(old(deliveries.published_at(d)) < snapshots.acked_messages_before(deref(a.params.SnapshotID)) || snap_acked(deref(a.params.SnapshotID), old(deliveries.message_id(d)))) ==>
+//@                   (!old(deliveries.completed_at$null(d)) ==> deliveries.completed_at$null(d) && deliveries.expires_at(d) == now + subscriptions.message_ttl(deref(a.params.SubscriptionID)) && deliveries.attempt_at(d) <= now) &&
+//@                   (old(deliveries.completed_at$null(d)) ==> delivery_unchanged(d)))
+//@   ensures other_subscriptions: [C02] err == nil ==> (forall d Id :: old(deliveries.subscription_id(d)) != deref(a.params.SubscriptionID) ==> delivery_unchanged(d))
+//@   ensures wakes: [C10] err == nil ==> (forall d Id :: deliveries.completed_at$null(d) != old(deliveries.completed_at$null(d)) ==> wake_on_commit(deref(a.params.SubscriptionID)))
+//@   ensures no_swallowed_failure: [C09] dbfailed() && !old(dbfailed()) ==> err != nil
+//@   modifies T:deliveries:completed_at, T:deliveries:completed_at$null, T:deliveries:expires_at, T:deliveries:attempt_at, S:dbfailed, S:wake_on_commit, F:actions.SeekSubscriptionToSnapshot:*, F:actions.seekSubscriptionResults:*
